@@ -10,6 +10,7 @@ Close Scope Z_scope.
 Open Scope nat_scope.
 
 Lemma failure_returned_as_result_spec : failure_returned_as_result = true. Proof. vm_compute. reflexivity. Qed.
+Lemma death_in_apply_restarts_worker_spec : death_in_apply_restarts_worker = true. Proof. vm_compute. reflexivity. Qed.
 Lemma interrupted_task_sends_nothing_spec : interrupted_task_sends_nothing = true. Proof. vm_compute. reflexivity. Qed.
 
 (* AsyncResult._set, characterised *)
@@ -20,7 +21,7 @@ Proof. unfold async_set. destruct cb, ecb, ok; reflexivity. Qed.
 
 (* what the user function would give *)
 Definition expected (o : oc) : bool * Z :=
-  match o with OOk v => (true, v) | ORaise e => (false, e) | OBlock => (false, TIMEOUT) end.
+  match o with OOk v => (true, v) | ORaise e => (false, e) | OBlock => (false, TIMEOUT) | ODie => (false, DIED) end.
 
 Definition job_ok (j : job) : Prop :=
   (* before it is set: not ready, still in the cache, no callback invoked *)
@@ -33,6 +34,7 @@ Definition job_ok (j : job) : Prop :=
      j_ecb j = (if snd (j_cbs j) && negb (fst (expected (j_oc j))) then [j_val j] else [])) /\
   (* a result in flight is the function's own *)
   (match j_phase j with JSent ok v => (ok, v) = expected (j_oc j) /\ j_ready j = false | JGone => j_ready j = true
+                   | JDead => j_ready j = false /\ j_oc j = ODie
                    | _ => j_ready j = false end).
 
 Definition AInv (s : ast) : Prop := exn s = false /\ Forall job_ok (jobs s).
@@ -53,7 +55,7 @@ Qed.
 
 Lemma astep_AInv s a s' : AInv s -> astep s a = Some s' -> AInv s'.
 Proof.
-  intros [He Hj] Hs. destruct a as [w o to cb ecb|i|i|i]; cbn [astep] in Hs.
+  intros [He Hj] Hs. destruct a as [w o to cb ecb|i|i|i|i]; cbn [astep] in Hs.
   - inversion Hs; subst s'; clear Hs. split; [assumption|]. cbn. apply Forall_app. split; [assumption|].
     constructor; [|constructor]. unfold job_ok; cbn. repeat split; auto; discriminate.
   - destruct (nth_error (jobs s) i) as [j|] eqn:Hn; [|discriminate].
@@ -82,6 +84,14 @@ Proof.
     apply Forall_upd; [assumption|]. destruct (H1 H3) as (Hc & Hcb & Hecb & Hsu). rewrite Hc.
     unfold job_ok, set_result. rewrite async_set_spec. cbn. rewrite Hcb, Hecb, Ho. cbn.
     repeat split; auto; try discriminate.
+  - destruct (nth_error (jobs s) i) as [j|] eqn:Hn; [|discriminate].
+    assert (Hjo : job_ok j). { rewrite Forall_forall in Hj. apply Hj. eapply nth_error_In; eauto. }
+    destruct Hjo as (H1 & H2 & H3).
+    destruct (j_phase j) eqn:Hp; try discriminate. rewrite death_in_apply_restarts_worker_spec in Hs.
+    inversion Hs; subst s'; clear Hs. split; [assumption|]. cbn.
+    apply Forall_upd; [assumption|]. destruct H3 as [H3 Ho]. destruct (H1 H3) as (Hc & Hcb & Hecb & Hsu). rewrite Hc.
+    unfold job_ok, set_result. rewrite async_set_spec. cbn. rewrite Hcb, Hecb, Ho. cbn.
+    repeat split; auto; try discriminate.
 Qed.
 
 Theorem arun_AInv : forall l s, AInv s -> AInv (arun s l).
@@ -103,7 +113,8 @@ Proof. apply (arun_AInv l ainit ainit_AInv). Qed.
 (* C09: every job becomes ready: in a state where nothing can move any more (that is what
    stop_and_join waits for) every submitted job is ready, provided no task blocks forever without
    a timeout *)
-Definition quiescent (s : ast) : Prop := forall i, astep s (AWork i) = None /\ astep s (ARes i) = None /\ astep s (ATimeout i) = None.
+Definition quiescent (s : ast) : Prop :=
+  forall i, astep s (AWork i) = None /\ astep s (ARes i) = None /\ astep s (ATimeout i) = None /\ astep s (ADeath i) = None.
 
 Lemma firstn_busy_ex : forall (l : list job) (P : job -> bool), existsb P l = true ->
   exists i j, nth_error l i = Some j /\ P j = true /\ forallb (fun x => negb (P x)) (firstn i l) = true.
@@ -129,18 +140,19 @@ Proof.
   apply negb_true_iff in Hk.
   assert (Hko : job_ok k). { rewrite Forall_forall in HI. apply HI. eapply nth_error_In; eauto. }
   destruct Hko as (K1 & K2 & K3).
-  destruct (Hq i) as (Q1 & Q2 & Q3). cbn [astep] in Q1, Q2, Q3. rewrite Hn in Q1, Q2, Q3.
+  destruct (Hq i) as (Q1 & Q2 & Q3 & Q4). cbn [astep] in Q1, Q2, Q3, Q4. rewrite Hn in Q1, Q2, Q3, Q4.
   destruct (j_phase k) eqn:Hp.
   - (* queued: all earlier jobs are ready, hence not busy: it may start *)
     assert (Hms : may_start (jobs s) i (j_w k) = true).
     { unfold may_start. apply forallb_forall. intros x Hx.
       rewrite forallb_forall in Hf. specialize (Hf x Hx). apply negb_true_iff, negb_false_iff in Hf.
       assert (Hxo : job_ok x). { rewrite Forall_forall in HI. apply HI. eapply firstn_In; eauto. }
-      destruct Hxo as (_ & _ & X3). unfold busy. destruct (j_phase x); try congruence; rewrite andb_false_r; reflexivity. }
+      destruct Hxo as (_ & _ & X3). unfold busy. destruct (j_phase x); try congruence; try (destruct X3; congruence); rewrite andb_false_r; reflexivity. }
     rewrite Hms in Q1. discriminate.
   - (* running *)
     rewrite failure_returned_as_result_spec in Q1. destruct (j_oc k) eqn:Ho; try discriminate.
     rewrite (Hto k (nth_error_In _ _ Hn) Ho) in Q3. discriminate.
   - discriminate.
   - congruence.
+  - rewrite death_in_apply_restarts_worker_spec in Q4. discriminate.
 Qed.
